@@ -89,6 +89,7 @@ type TB struct {
 	vars   []*Term          // declared variables in creation order
 	ufs    map[string]ufSig // UF name -> signature
 	ufOrd  []string
+	ufApps []*Term
 	nfresh int
 }
 
@@ -213,7 +214,12 @@ func (b *TB) UF(name string, resW int, args ...*Term) *Term {
 			}
 		}
 	}
-	return b.mk(OpUF, resW, name, 0, 0, args...)
+	before := b.nextID
+	t := b.mk(OpUF, resW, name, 0, 0, args...)
+	if b.nextID != before {
+		b.ufApps = append(b.ufApps, t)
+	}
+	return t
 }
 
 func (b *TB) Not(x *Term) *Term {
